@@ -585,6 +585,10 @@ def t_domain_spell(F, R):
                     if abs(v) == inf:
                         want.append([k for k, c in consts.items() if c == v])
                     else:
-                        want.append(["<f64:%r>" % v])
+                        # a finite bound: the number itself, as the float placeholder or as a decimal literal for it
+                        lits = ["<f64:%r>" % v] + ([str(int(v)), repr(v)] if v == int(v) else [repr(v)])
+                        if v == 0:
+                            lits.append("0")
+                        want.append(lits)
                 ok = any(txt == "%s(%s, %s)" % (ctor, x, y) for x in want[0] for y in want[1]) or (txt == ctor and (a, b) == default)
                 R.ob("T-DOMAIN-SPELL", key, ok, F.loc(F.fn(dp)), "domain %s with bounds (%r, %r) is written `%s`; each infinite bound must be the constant that denotes it (%s), and the bare type name stands for %s only" % (ctor, a, b, txt, want, default))
